@@ -1,5 +1,5 @@
 import Lean.Data.Json
-import PynguinModel.Model.AssertRender
+import PynguinModel.Model.AssertTrace
 /-! Line-protocol driver for C20: one JSON case per line in, one JSON result per line out.
 The JSON encodings are documented in `harness/c20.py` / `harness/c23_common.py`. -/
 open Lean PynguinModel.Literals PynguinModel.AssertRender
@@ -205,6 +205,111 @@ def optBoolJ : Option Bool → Json
   | some b => toJson b
   | none => Json.null
 
+/-! ### Histories: the observer path (`Model/AssertTrace.lean`) -/
+
+def itemOfJson (j : Json) : Except String Item := do
+  if let .ok x := j.getObjVal? "ref" then return .ref (← getNat x)
+  return .imm (← avalOfJson j)
+
+def cellOfJson (j : Json) : Except String Cell := do
+  if let .ok x := j.getObjVal? "l" then return .list (← (← getArr x).toList.mapM itemOfJson)
+  if let .ok x := j.getObjVal? "t" then return .tuple (← (← getArr x).toList.mapM itemOfJson)
+  if let .ok x := j.getObjVal? "S" then return .set (← (← getArr x).toList.mapM itemOfJson)
+  if let .ok x := j.getObjVal? "d" then
+    let ps ← (← getArr x).toList.mapM (fun p => do
+      let a ← getArr p
+      if a.size != 2 then err "dict cell entry: want [k, v]"
+      pure ((← itemOfJson a[0]!), (← itemOfJson a[1]!)))
+    return .dict ps
+  err s!"cell: unknown {j.compress}"
+
+def pairsOfJson {α} (f : Json → Except String α) (j : Json) : Except String (List (String × α)) := do
+  (← getArr j).toList.mapM (fun p => do
+    let a ← getArr p
+    if a.size != 2 then err "pair: want [name, x]"
+    pure ((← a[0]!.getStr?), (← f a[1]!)))
+
+def nvalOfJson (j : Json) : Except String (NValOf Item) := do
+  if let .ok x := j.getObjVal? "plain" then return .plain (← itemOfJson x)
+  if let .ok x := j.getObjVal? "inst" then
+    let len ← match (← x.getObjVal? "len") with
+      | .null => pure none
+      | l => do pure (some (← getNat l))
+    return .inst (← typeIdOfJson x) len (← pairsOfJson itemOfJson (← x.getObjVal? "fields"))
+  err s!"nval: unknown {j.compress}"
+
+def hsnapOfJson (j : Json) : Except String HSnapshot := do
+  let heap ← (← getArr (← j.getObjVal? "heap")).toList.mapM (fun p => do
+    let a ← getArr p
+    if a.size != 2 then err "heap entry: want [addr, cell]"
+    pure ((← getNat a[0]!), (← cellOfJson a[1]!)))
+  let classes ← (← getArr (← j.getObjVal? "classes")).toList.mapM (fun p => do
+    let a ← getArr p
+    if a.size != 2 then err "classes entry: want [typeId, fields]"
+    pure ((← typeIdOfJson a[0]!), (← pairsOfJson nvalOfJson a[1]!)))
+  pure ⟨heap, ⟨← (← j.getObjVal? "bound").getStr?, ← pairsOfJson nvalOfJson (← j.getObjVal? "vars"),
+               ← pairsOfJson nvalOfJson (← j.getObjVal? "mod"), classes⟩⟩
+
+def sourceOf : Assertion → String
+  | .float s _ | .object s _ | .typeName s _ | .isInstance s _ | .collectionLength s _ => s
+
+/-- Depth bound of `reify` in the driver: `is_assertable` gives up below depth 4, so deeper levels
+(and the unfolding of cyclic structures) are never looked at. -/
+def fuel : Nat := 8
+
+def runHist (j : Json) : Except String Json := do
+  let prec ← floatOfJson (← j.getObjVal? "prec")
+  let lim ← getNat (← j.getObjVal? "lim")
+  let tej ← j.getObjVal? "te"
+  let resolving ← (← getArr (← tej.getObjVal? "resolves")).toList.mapM typeIdOfJson
+  let te : TypeEnv := ⟨← (← tej.getObjVal? "moduleName").getStr?, fun t => resolving.contains t⟩
+  let aliasOf ← (← j.getObjVal? "alias").getStr?
+  let env : RenderEnv := ⟨fun _ => aliasOf⟩
+  let nsj ← j.getObjVal? "ns"
+  let types ← (← getArr (← nsj.getObjVal? "types")).toList.mapM (fun p => do
+    let a ← getArr p
+    if a.size != 2 then err "types entry: want [path, typeId]"
+    pure ((← strList a[0]!), (← typeIdOfJson a[1]!)))
+  let enums ← strList (← nsj.getObjVal? "enums")
+  let hs ← (← getArr (← j.getObjVal? "positions")).toList.mapM hsnapOfJson
+  let hEnd : Heap := match hs.getLast? with
+    | some s => s.heap
+    | none => []
+  let some snaps := allSome (hs.map (HSnapshot.observe fuel))
+    | return Json.mkObj [("err", "dangling-reference")]
+  let some recorded := recordHistory fuel te aliasOf hs
+    | return Json.mkObj [("err", "dangling-reference")]
+  let renderJ (a : Assertion) : Option Json := (renderLim lim env prec a).map stmtToJson
+  let outs := (hs.zip (snaps.zip recorded)).map (fun (h, s, as) =>
+    let ns := nsAt aliasOf enums types s
+    -- what a shallow copy / no copy would show when the assertions are rendered (diagnosis only)
+    let table (mode : CopyMode) : List (String × AVal) :=
+      match h.observeWith fuel mode hEnd with
+      | some s' => s'.flat aliasOf
+      | none => []
+    let shallowT := table .shallow
+    let aliasT := table .alias
+    let alt (mode : CopyMode) (a : Assertion) : Option Json :=
+      match a with
+      | .object src _ =>
+          match lookup src (match mode with | .shallow => shallowT | _ => aliasT) with
+          | some v' => renderJ (.object src v')
+          | none => none
+      | _ => none
+    Json.arr (as.map (fun a =>
+      match renderLim lim env prec a with
+      | none => Json.mkObj [("kind", kindOf a), ("src", sourceOf a), ("err", "ValueError")]
+      | some st =>
+        let base := [("kind", toJson (kindOf a)), ("src", toJson (sourceOf a)), ("stmt", stmtToJson st),
+                     ("valid", toJson st.valid), ("eval", optBoolJ (evalStmt ns st))]
+        let sh := alt .shallow a
+        let al := alt .alias a
+        let extra :=
+          (if sh.isSome && sh != some (stmtToJson st) then [("ifShallow", sh.getD Json.null)] else []) ++
+          (if al.isSome && al != some (stmtToJson st) then [("ifAlias", al.getD Json.null)] else [])
+        Json.mkObj (base ++ extra))).toArray)
+  pure (Json.mkObj [("positions", Json.arr outs.toArray)])
+
 def runCase (j : Json) : Except String Json := do
   let op ← (← j.getObjVal? "op").getStr?
   match op with
@@ -232,6 +337,7 @@ def runCase (j : Json) : Except String Json := do
       | some st => Json.mkObj [("kind", kindOf a), ("stmt", stmtToJson st), ("valid", st.valid),
           ("eval", optBoolJ (evalStmt ns st))])
     pure (Json.mkObj [("assertable", isAssertable 0 v), ("assertions", Json.arr outs.toArray)])
+  | "hist" => runHist j
   | o => err s!"unknown op {o}"
 
 end C20Driver
